@@ -73,7 +73,25 @@ _DECL_RE = re.compile(r'extern int v\d+;|typedef long t\d+;|struct s\d+\{int x;\
 _CHUNK_RE = re.compile(r'extern int v\d+;|typedef long t\d+;|struct s\d+\{int x;\};|int f\d+\(int\);'
                        r'|/\*[^/]*\*/|[ \n\t]+')
 MOVES = {'reorder', 'kvmove', 'split', 'join', 'resplit', 'intstr', 'regroup', 'wrap', 'l2d',
-         'cdefmove', 'srcmove', 'incmove'}
+         'cdefmove', 'srcmove', 'incmove', 'relmove'}
+FILE_KEYS = ('sources', 'include_dirs', 'library_dirs', 'extra_objects', 'depends')
+RELS = [None, 'setup.py', '/a/b/x.py', 'pkg/y.py', '/site-packages/pkg/__init__.py', '../z.py', '/a/b/c/../x.py']
+
+
+def _rel_lists(kw):
+    """number of file names relative_to= would rewrite, or None if it cannot be used with these kwds
+    (make_relative_to wants a list/tuple of str under every file-list keyword)"""
+    n = 0
+    for k, v in kw[1]:
+        if k in FILE_KEYS:
+            if v[0] not in 'lt' or any(c[0] != 's' for c in v[1]):
+                return None
+            n += len(v[1])
+    return n
+
+
+def _rel(inp):
+    return inp.get('rel') if _rel_lists(inp['kw']) is not None else None
 TMPDIR = '/nonexistent/verif-c32'
 
 
@@ -163,7 +181,7 @@ def compute(inp, ffi=None):
     V.binascii = rec
     try:
         v = V.Verifier(ffi, ''.join(inp['src']), tmpdir=TMPDIR, tag=inp['tag'],
-                       force_generic_engine=bool(inp['generic']), **kw)
+                       force_generic_engine=bool(inp['generic']), relative_to=_rel(inp), **kw)
         name = v.get_module_name()
     finally:
         V.binascii = old
@@ -247,14 +265,17 @@ def _applicable(inp):
         out += ['cdefmove', 'cdefmove', 'cdefmove', 'incmove', 'incmove']
         if 'c' in inp['cdefs'][0]:
             out += ['srcmove', 'srcmove']
-    return out * 2 + ['edit', 'edit', 'tag', 'engine']
+    if _rel_lists(inp['kw']):
+        out += ['relmove', 'relmove', 'relmove']
+    return out * 2 + ['edit', 'edit', 'tag', 'engine', 'relmove']
 
 
 def strategy(ctx):
     from hypothesis import strategies as st
     txt = st.text(st.sampled_from(ALPHA), max_size=5)
     key_s = st.one_of(txt, txt, st.sampled_from(['libraries', 'include_dirs', 'define_macros',
-                                                 'extra_compile_args', 'sources', 'k', 'kk']))
+                                                 'extra_compile_args', 'sources', 'k', 'kk',
+                                                 'sources', 'depends', 'library_dirs', 'extra_objects']))
     ints = st.one_of(st.integers(-20, 130), st.sampled_from([2 ** 31, 2 ** 64, -2 ** 63, 10 ** 30]))
     leaf = st.one_of(txt.map(lambda s: ['s', s]), txt.map(lambda s: ['s', s]), ints.map(lambda n: ['i', n]))
 
@@ -473,6 +494,14 @@ def _apply(kind, inp, draw):
     if kind == 'engine':
         inp['generic'] = not inp['generic']
         return inp
+    if kind == 'relmove':
+        # relative_to= is documented not to be part of the name (cdef.rst): moving the project elsewhere
+        # must keep the module name
+        new = draw(st.sampled_from(RELS))
+        if new == inp.get('rel'):
+            return None
+        inp['rel'] = new
+        return inp
     if kind == 'edit':
         # (container, index) of every editable string; comments only inside the body
         spots = []
@@ -597,9 +626,12 @@ def _judge_pair(a, b, ra, rb, how, ctx, where):
     loose_ne = (ka[0] != kb[0] or ka[1] != kb[1] or loose(ka[2]) != loose(kb[2]))
     same_rest = a['tag'] == b['tag'] and bool(a['generic']) == bool(b['generic'])
     cls = 'must-equal' if strict_eq else 'must-differ' if loose_ne else 'unclaimed-list-vs-tuple'
-    ctx.note([where, json.dumps([ka, a['tag'], a['generic'], kb, b['tag'], b['generic']],
+    labels = ['pair:' + cls, 'step:' + how + ':' + cls]
+    if _rel(a) != _rel(b):
+        labels.append('relative_to-differs:%s' % ('file-names-rewritten' if _rel_lists(a['kw']) else 'no-file-lists'))
+    ctx.note([where, json.dumps([ka, a['tag'], a['generic'], _rel(a), kb, b['tag'], b['generic'], _rel(b)],
                                 sort_keys=True, default=repr)],
-             how in MOVES, ['pair:' + cls, 'step:' + how + ':' + cls])
+             how in MOVES, labels)
     if strict_eq:
         if ra[1] != rb[1]:
             ctx.fail('same (cdefs, source, kwds) but different hashed keys (%s)' % where,
